@@ -227,13 +227,24 @@ func (c *SimConn) LimitOut(n int) { c.out.mu.Lock(); c.out.limit = n; c.out.mu.U
 type SimTLSConn struct {
 	*SimConn
 	Handshake func(ctx context.Context) error
+	hsMu      sync.Mutex
+	hsDone    bool
 }
 
 func (c *SimTLSConn) HandshakeContext(ctx context.Context) error {
-	if c.Handshake == nil {
-		return nil
+	c.hsMu.Lock()
+	done := c.hsDone
+	c.hsMu.Unlock()
+	if c.Handshake == nil || done {
+		return nil // a completed handshake is not run again
 	}
-	return c.Handshake(ctx)
+	err := c.Handshake(ctx)
+	if err == nil {
+		c.hsMu.Lock()
+		c.hsDone = true
+		c.hsMu.Unlock()
+	}
+	return err
 }
 
 // ---------------------------------------------------------------- TCP endpoint: real tcp.Client over the simulated stream
@@ -322,6 +333,7 @@ type SimPacketConn struct {
 	Handshake    func(ctx context.Context) error
 	WriteErr     error
 	reset        bool
+	hsDone       bool
 }
 
 func NewPacketConn(e *Env, l, r *net.UDPAddr) *SimPacketConn {
@@ -330,10 +342,19 @@ func NewPacketConn(e *Env, l, r *net.UDPAddr) *SimPacketConn {
 }
 
 func (c *SimPacketConn) HandshakeContext(ctx context.Context) error {
-	if c.Handshake == nil {
-		return nil
+	c.mu.Lock()
+	done := c.hsDone
+	c.mu.Unlock()
+	if c.Handshake == nil || done {
+		return nil // a completed handshake is not run again (the library asks before every read and write)
 	}
-	return c.Handshake(ctx)
+	err := c.Handshake(ctx)
+	if err == nil {
+		c.mu.Lock()
+		c.hsDone = true
+		c.mu.Unlock()
+	}
+	return err
 }
 
 func (c *SimPacketConn) Read(b []byte) (int, error) {
